@@ -66,6 +66,38 @@ func segMatch(p, s string) bool {
 		return false
 	case '?':
 		return len(s) > 0 && segMatch(p[1:], s[1:])
+	case '[': // character class: single characters and ranges, ^ or ! negates
+		end := strings.IndexByte(p, ']')
+		if end < 0 || len(s) == 0 {
+			return false
+		}
+		cls, neg := p[1:end], false
+		if cls != "" && (cls[0] == '^' || cls[0] == '!') {
+			cls, neg = cls[1:], true
+		}
+		in := false
+		for i := 0; i < len(cls); i++ {
+			if i+2 < len(cls) && cls[i+1] == '-' {
+				if cls[i] <= s[0] && s[0] <= cls[i+2] {
+					in = true
+				}
+				i += 2
+			} else if cls[i] == s[0] {
+				in = true
+			}
+		}
+		return in != neg && segMatch(p[end+1:], s[1:])
+	case '{': // alternatives (not nested, no path separators inside)
+		end := strings.IndexByte(p, '}')
+		if end < 0 {
+			return false
+		}
+		for _, alt := range strings.Split(p[1:end], ",") {
+			if segMatch(alt+p[end+1:], s) {
+				return true
+			}
+		}
+		return false
 	}
 	return len(s) > 0 && s[0] == p[0] && segMatch(p[1:], s[1:])
 }
@@ -215,6 +247,25 @@ func patterns() []string {
 	return out
 }
 
+// patternsExt: patterns that use the remaining documented terms, [class] and {alt1,...}, alone and next
+// to the other terms - in particular patterns that contain alternatives but no *, ? or [.
+func patternsExt() []string {
+	ext := []string{"{a,c}.go", "{a.go,b.txt}", "[ab].*", "[a-c].go", "[^a].go", "{d,x}", "{e,d}"}
+	old := []string{"a.go", "d", "e", "*", "*.go", "**"}
+	var out []string
+	for _, a := range ext {
+		out = append(out, a)
+		for _, b := range append(append([]string{}, ext...), old...) {
+			out = append(out, a+"/"+b)
+		}
+		for _, b := range old {
+			out = append(out, b+"/"+a)
+		}
+	}
+	out = append(out, "d/{e,x}/{a,f}.*", "{d,x}/{e,y}/a.go", "d/e/{a.go,f.md}", "**/{a,c}.go", "**/[ac].go", "{d,x}/**")
+	return out
+}
+
 func main() {
 	common.Init()
 	res := common.NewResult("watchp")
@@ -272,6 +323,21 @@ func main() {
 					if do(pathCase{Tree: tree, Include: []string{inc}, Exclude: []string{exc}}) {
 						goto done
 					}
+				}
+			}
+		}
+	case "paths-ext": // every tree x one include pattern using [class] / {alternatives}; the full tree x 4 includes x one such exclude
+		for tree := 0; tree < 64; tree++ {
+			for _, inc := range patternsExt() {
+				if do(pathCase{Tree: tree, Include: []string{inc}}) {
+					goto done
+				}
+			}
+		}
+		for _, inc := range []string{"**", "**/*.go", "d/**", "*"} {
+			for _, exc := range patternsExt() {
+				if do(pathCase{Tree: 63, Include: []string{inc}, Exclude: []string{exc}}) {
+					goto done
 				}
 			}
 		}
